@@ -2,7 +2,7 @@
 tables, sort + dot policy in pathname expansion."""
 import re
 
-from rulelib import SHIPPED, bool_edges, call_sites, cfg_of, defs_of, owner, switches_on_field
+from rulelib import SHIPPED, bool_edges, call_sites, cfg_of, defs_of, owner, short, switches_on_field
 from dataflow import base_local, const_value, forward_taint, origins
 from facts import canon
 from rules.c13 import true_chars
@@ -177,6 +177,34 @@ def run(prog, chk):
                                 tl = forward_taint(eb, {s.place.local})
                                 if any(a.place is not None and a.place.local in tl for t in filt for a in t.args):
                                     pol = True
+        # the policy of one path component must not be carried over to the next: the captured flag is (re)defined inside the loop over
+        # components and has no definition outside it that reaches the closure
+        carried = None
+        loops_e = c.source_loops()
+        for bl in eb.blocks:
+            for s in bl.stmts:
+                if s.kind == 'a' and s.rv.kind == 'agg' and s.rv.raw.get("ak") == "closure":
+                    cbody = prog.body(canon(s.rv.raw["def"]))
+                    if cbody is None or not (any((t.callee or "").endswith("DirEntry::file_name") for _, t in cbody.calls())
+                                             and any((t.callee or "").endswith("starts_with") for _, t in cbody.calls())):
+                        continue
+                    encl = [blks for h, blks in loops_e.items() if bl.idx in blks]
+                    if not encl:
+                        continue
+                    comp_loop = max(encl, key=len)          # outermost loop around the closure = loop over path components
+                    for o in s.rv.ops:
+                        loc = base_local(eb, d, o)
+                        if loc is None or eb.local_ty(loc).replace("&", "").strip() != "bool":
+                            continue
+                        outside = [x[1] for x in d.of(loc) if x[1] not in comp_loop]
+                        if outside:
+                            carried = (eb.local_name(loc) or "_%d" % loc, eb.blocks[outside[0]].term.line)
+        if carried:
+            chk.fail("R8.3", eb.name, "dot-policy-carried-across-components",
+                     "the dot-file flag `%s` captured by the filter closure is also defined outside the loop over path components (line %s): what an earlier "
+                     "component allowed stays allowed for later ones — `.c*/*` lists `.cfg/.secret`" % carried)
+        elif pol:
+            chk.ok("R8.3", "dot-policy-per-component", "the flag captured by the filter closure is defined inside the component loop only", function=eb.name)
         if pol:
             chk.ok("R8.3", "dot-policy", "a filter closure tests the leading dot under require_dot_in_pattern_to_match_dot_files / pattern-starts-with-dot", function=eb.name)
         else:
@@ -185,3 +213,38 @@ def run(prog, chk):
     # ---- R8.5 / R8.6 pattern operators of parameter expansion (shared with C06 R6.3 / R6.4) --------------------
     from rules import c06
     c06.removal_rules(prog, chk, R3="R8.5", R4="R8.6")
+    pattern_from_tagged_pieces_rule(prog, chk)
+
+
+def pattern_from_tagged_pieces_rule(prog, chk):
+    """R8.7: "backslash-escaped and quoted segments [are] literals". A quoted segment can only stay literal if the pattern is built from
+    the *tagged* pieces of the expansion (basic_expand_pattern → From<Vec<PatternPiece>> / From<WordField>). A Pattern built from the flat
+    string of an expansion (basic_expand_word…) has lost which characters were quoted: `[[ abc == "a*" ]]` matches."""
+    from dataflow import flow_back
+    chk.rule("R8.7", "no pattern used by [[ == ]], [[ != ]], case or the ${v#p} family is built from the flattened text of an expansion: "
+                     "Pattern::from(&str|String) never receives the result of basic_expand_word / basic_expand_to_str")
+    n = 0
+    for b in prog.all_bodies({"brush_core"}):
+        fn = owner(b.name)
+        if not any(m in fn for m in ("::extendedtests::", "::interp::", "::expansion::")):
+            continue
+        d = None
+        for bb, t in b.calls():
+            cal = t.best_callee() or ""
+            if not cal.startswith("<brush_core::patterns::Pattern as core::convert::From<"):
+                continue
+            n += 1
+            src = cal[len("<brush_core::patterns::Pattern as core::convert::From<"):]
+            if not src.startswith(("&str", "alloc::string::String", "&alloc::string::String", "&&str")):
+                chk.ok("R8.7", "tagged:%s@%s" % (src.split(">")[0][-24:], short(fn)), "built from tagged pieces", function=fn)
+                continue
+            d = d or defs_of(b)
+            vias = {v for f in flow_back(b, d, t.args[0], all_args=True) for v in f.via}
+            flat = sorted(v for v in vias if v.rsplit("::", 1)[-1].startswith(("basic_expand_word", "basic_expand_to_str", "basic_expand_str", "full_expand")))
+            if flat:
+                chk.fail("R8.7", fn, "pattern-from-flattened-expansion",
+                         "%s builds a Pattern from the flat string returned by %s (line %s): quoting information is gone, so quoted or escaped metacharacters "
+                         "act as wildcards: a [[ abc == QUOTED-a* ]] test is true" % (fn, short(flat[0]), t.line))
+            else:
+                chk.ok("R8.7", "plain-text-pattern@%s" % short(fn), "pattern text does not come from a word expansion in this body", nontrivial=False, function=fn)
+    chk.floor("R8.7", "Pattern constructions in the interpreter / tests / expansion", n, 4)
